@@ -7,7 +7,6 @@
 EXTENDS Bytes, Calendar, Expect
 
 RuleDisableBasic == 1
-HasBit(r, b) == (r \div b) % 2 = 1
 
 ZeroDate == D(1, 1, 1)
 
@@ -49,8 +48,6 @@ DateLangEx(t) ==
      /\ IsDigit(t[n + sep + 1]) /\ IsDigit(t[n + sep + 2])
      /\ IsDigit(t[n + 2 * sep + 3]) /\ IsDigit(t[n + 2 * sep + 4])
 
-NotTooLong == {"ErrInputTooLong"}
-
 ParseDateRef(t, rule, max) ==
   IF Len(t) = 0 THEN Fail({}, {}, NotTooLong)
   ELSE IF max # 0 /\ Len(t) > max THEN Fail({"ErrInputTooLong"}, {}, {})
@@ -58,7 +55,7 @@ ParseDateRef(t, rule, max) ==
     IF s.k = "none" THEN Fail({}, {}, NotTooLong)
     ELSE LET y == DigitsVal(s.y)  m == DigitsVal(s.m)  d == DigitsVal(s.d)
              valid == ValidYMD(y, m, d) IN
-      IF s.k = "basic" /\ HasBit(rule, RuleDisableBasic)
+      IF s.k = "basic" /\ Bit(rule, RuleDisableBasic)
         THEN IF valid THEN Fail({"ErrBasicFormatDisabled"}, {}, NotTooLong)
                       ELSE Fail({}, {}, NotTooLong)
       ELSE IF valid THEN Ok(D(y, m, d))
@@ -114,7 +111,7 @@ FilterBuildRef(from, to) ==
     THEN Fail({"ErrInvalidFromOrTo"}, {}, {})
     ELSE Ok([from |-> from, to |-> to])
 
-Contains(f, p) == /\ IsNone(f.from) \/ ~Lt(p, f.from)
-                  /\ IsNone(f.to)   \/ ~Lt(f.to, p)
+FContains(f, p) == /\ (IsNone(f.from) \/ ~Lt(p, f.from))
+                   /\ (IsNone(f.to) \/ ~Lt(f.to, p))
 
 =============================================================================
